@@ -87,7 +87,43 @@ class Ticket:
         return e.callee.self_param is not None
 
     def release_blocks(self, b, sa):
+        """blocks in which a release *may* happen (the block's call, or something it calls, contains a release event)"""
         return {e.info["top_bb"] for e in self.direct_events(b, sa) if self.is_release(e)}
+
+    def must_release_blocks(self, b, sa):
+        """blocks in which a release happens on every path: a release primitive itself, or a call of a crate-local function
+        all of whose normal paths pass such a block (a helper that releases only on some paths does not count)"""
+        key = ("mustrel", b.def_, sa)
+        if key not in self._held:
+            self._held[key] = self._must_release_ctx(self.env.ctx(b, sa, self.world), 0)
+        return self._held[key]
+
+    def _must_release_ctx(self, ctx, depth):
+        from terms import is_atomic
+        ev = self.env.ev
+        body = ctx.body
+        out = set()
+        for bi, t, c in body.calls():
+            if body.blocks[bi]["cleanup"] or c.indirect:
+                continue
+            args = tuple(ev.operand(ctx, a) for a in t["args"])
+            if is_atomic(c):
+                role, adt = self.role_of(args[0]) if args else (None, None)
+                if adt == self.adt and ((role == "serving" and c.name in ("fetch_add", "fetch_sub", "swap", "store",
+                                                                          "compare_exchange", "compare_exchange_weak",
+                                                                          "fetch_max", "fetch_update"))
+                                        or (role == "done" and c.name == "store")):
+                    out.add(bi)
+                continue
+            if depth >= 6:
+                continue
+            nctx = ev.callee_ctx(ctx, bi, args)
+            if nctx is not None:
+                crel = self._must_release_ctx(nctx, depth + 1)
+                cb = nctx.body
+                if crel and (0 in crel or not cb.paths_avoiding(0, set(cb.exits()), crel)):
+                    out.add(bi)
+        return out
 
     def serving_load(self, a):
         """the load term if `a` is a load of the now-serving counter of the ticket implementor — or a local that holds the
@@ -102,9 +138,14 @@ class Ticket:
         return None
 
     # ---- admission --------------------------------------------------------------------------------
-    def admission_fact(self, ctx, bb):
-        """(load_term, ticket_term) if block bb is dominated by an `ticket == load(SERVING)` edge"""
+    def admission_fact(self, ctx, bb, own_only=False):
+        """(load_term, ticket_term) if block bb is dominated by an `ticket == load(SERVING)` edge.
+        own_only: ignore what is known at the entry of a closure from the call that runs it (those facts say that the
+        ticket *was* admitted when the value was produced, not that it is still held)"""
+        entry = list(getattr(ctx, "entry_facts", ()) or ()) if own_only else []
         for f in block_facts(self.env.ev, ctx, bb):
+            if f in entry:
+                continue
             if f[0] == "eq" and len(f) == 3:
                 for a, b in ((f[1], f[2]), (f[2], f[1])):
                     ld = self.serving_load(a)
@@ -148,8 +189,20 @@ class Ticket:
             self._held[key] = any(okk and hands for (okk, _g, _w, hands) in self.handover_sites(cb, csa).values())
         return bool(self._held[key])
 
-    def admitting_call(self, pctx, recv):
-        """does the Option-valued term recv come from a callee whose every `Some` is built under an admission?"""
+    def admitting_call(self, pctx, recv, op=None):
+        """does the Option-valued term recv come from a callee whose every `Some` is built under an admission?
+        op: the operand holding recv, for the site based judgement (every definition site of the value that yields `Some`
+        lies under the admission and yields `Some(ticket)`)"""
+        if op is not None and op.get("k") in ("copy", "move") and not op["place"]["p"]:
+            from guards import local_cases, class_facts
+            cs = [c for c in (local_cases(self.env.ev, pctx, op["place"]["l"]) or []) if c[0] == "Some"]
+            if cs:
+                adm = None
+                for f in class_facts(cs, "Some"):
+                    adm = adm or self.is_admission(f)
+                if adm is not None and all(v is not None and v[0] == "agg" and v[2] and unref(v[2][0]) == unref(adm[1])
+                                           for (_K, _fs, v) in cs):
+                    return adm[0]
         p = self.env.ev.payload(pctx, recv)
         if p[0] == "payload":
             return None
@@ -258,10 +311,10 @@ class Ticket:
     def _held_compute(self, b, sa, bb, trail):
         env = self.env
         ctx = env.ctx(b, sa, self.world)
-        adm = self.admission_fact(ctx, bb)
+        adm = self.admission_fact(ctx, bb, own_only=b.is_closure)
         if adm is not None:
             # find the admission edge target(s): blocks that carry the fact and dominate bb
-            starts = [d for d in b.dominators().get(bb, ()) if self.admission_fact(ctx, d) is not None]
+            starts = [d for d in b.dominators().get(bb, ()) if self.admission_fact(ctx, d, own_only=b.is_closure) is not None]
             if self._after_release(b, sa, bb, starts or [bb]):
                 return (False, "after the release of the ticket", adm[0])
             return (True, "dominated by ticket == load(SERVING)", adm[0])
@@ -286,7 +339,7 @@ class Ticket:
                     a1 = env.ev.operand(pctx, t["args"][1])
                     if clo is not None and unref(a1) == clo:
                         recv = env.ev.operand(pctx, t["args"][0])
-                        ld = self.admitting_call(pctx, recv)
+                        ld = self.admitting_call(pctx, recv, t["args"][0])
                         if ld is not None:
                             if self._after_release(b, sa, bb, [0]):
                                 return (False, "after the release of the ticket", ld)
